@@ -66,6 +66,7 @@ def normalized_tokens(src):
 #  ("whilelet", name, e, body) for `while let Some(name) = e`; ("loop", body); statement ("break",)
 #  ("iflet", name, e, then_block, else_block_or_None) for `if let Some(name) = e`; ("vecrep", elem, count) for
 #  `vec![elem; count]`; ("index", a, ("rangeto", k) | ("rangefrom", j) | ("range", j, k)) for slices;
+#  ("for", (n1, n2, ..), iter, body) for a tuple pattern; statement ("continue",);
 #  ("veclit", [es]) for `vec![a, b, ..]` / `vec![]`; ("refmut", e) for `&mut e` (only as an argument for a `&mut` parameter
 #  or as the scrutinee of `if let Some(x) = &mut place`); statement ("panic",) for `panic!(..)` as a statement / in tail position
 # ---------------------------------------------------------------------------------------------
@@ -184,6 +185,9 @@ class Parser:
             elif self.at("op", ".") and self.peek(1)[0] == "id":
                 self.next()
                 name = self.next()[1]
+                if self.at("op", "::") and self.peek(1) == ("op", "<"):    # turbofish: .sum::<usize>()
+                    self.next()
+                    self.skip_generic_args()
                 if self.at("op", "("):
                     args = self.parse_args()
                     e = ("mcall", e, name, args)
@@ -246,7 +250,21 @@ class Parser:
             self.next()
             if self.at("op", "&"):
                 self.next()
-            pat = self.expect("id")[1]
+            if self.at("op", "("):                           # for (j, &w) in ..: a tuple of names
+                self.next()
+                names = []
+                while not self.at("op", ")"):
+                    if self.at("op", "&"):
+                        self.next()
+                    names.append(self.expect("id")[1])
+                    if self.at("op", ","):
+                        self.next()
+                self.expect("op", ")")
+                if len(names) < 2 or "_" in names or len(set(names)) != len(names):
+                    raise ParseError("unsupported tuple pattern in `for`")
+                pat = tuple(names)
+            else:
+                pat = self.expect("id")[1]
             self.expect("id", "in")
             it = self.parse_expr()
             return ("for", None if pat == "_" else pat, it, self.parse_block())
@@ -378,7 +396,28 @@ class Parser:
         while self.at("op", "::"):
             self.next()
             parts.append(self.expect("id")[1])
+        if self.at("op", "<"):                               # Vec<_>, Vec<Vec<u8>>: the arguments are dropped
+            self.skip_generic_args()
         return "::".join(parts)
+
+    def skip_generic_args(self):
+        """`<` .. matching `>` (`>>` closes two levels)"""
+        self.expect("op", "<")
+        depth = 1
+        while depth > 0:
+            tok = self.next()
+            if tok[0] == "eof":
+                raise ParseError("unterminated generic arguments")
+            if tok == ("op", "<"):
+                depth += 1
+            elif tok == ("op", ">"):
+                depth -= 1
+            elif tok == ("op", ">>"):
+                depth -= 2
+            elif tok[0] == "op" and tok[1] in ("(", ")", "{", "}", ";", "="):
+                raise ParseError("unsupported generic arguments")
+        if depth < 0:
+            raise ParseError("unbalanced generic arguments")
 
     def at_blocklike(self):
         return self.at("id", "if") or (self.at("id", "unsafe") and self.peek(1) == ("op", "{")) \
@@ -467,7 +506,13 @@ class Parser:
                 stmts.append(("break",))
                 continue
             if self.at("id", "continue"):
-                raise ParseError("`continue` is not supported")
+                self.next()
+                if not self.at("op", ";") and not self.at("op", "}"):
+                    raise ParseError("`continue` with a label")
+                if self.at("op", ";"):
+                    self.next()
+                stmts.append(("continue",))
+                continue
             if self.at_blocklike():
                 # a block-like expression at statement start is a complete statement (as in rustc)
                 e = self.parse_primary()
